@@ -79,6 +79,12 @@ def corner_model(mb: ModelBuilder, writer: str) -> Any:
             if writer == "ClaferWriter" and isinstance(av, (dict, list)):
                 continue                                   # (Clafer attributes are bool / int / float / str)
             plain._f["attributes"].append(mb.attribute(an, av, plain))
+    if with_attrs:
+        # one attribute name on several features with values of different kinds
+        for i_, av_ in enumerate((3, "high", True, 2.5)):
+            o_ = mb.feature(f"Kind{i_}")
+            mb.relation(root, [o_], 0, 1)
+            o_._f["attributes"].append(mb.attribute("level", av_, o_))
     return mb.model(root, ctcs)
 
 
@@ -256,6 +262,12 @@ def check(pm: ProgramModel, ctx: Ctx) -> None:
                                   f"attributes): {c1['raise'][0]}")
                 else:
                     c2 = run(pm, ci, cm, "asc")
+                    c3 = run(pm, ci, cm, "desc")
+                    ctx.check(c3["returned"] == c1["returned"], "C12-SETITER", f"order:{ci.name}:corner-model", where,
+                              "on the corner model the output is the same under both extreme set iteration orders",
+                              bad=f"{ci.name}: on the corner model (one attribute name with values of several kinds, control "
+                                  f"characters in names) the output depends on the iteration order of a Python set, hence on "
+                                  f"PYTHONHASHSEED: {_first_diff(c1['returned'], c3['returned'])}")
                     okc = snapshot(cm) == cbefore and same_content(c1["returned"], c1["written"]) \
                         and c2["returned"] == c1["returned"]
                     ctx.check(okc, "C12-RETURN", f"corner-model:{ci.name}", where,
